@@ -136,6 +136,7 @@ func (x *Exec) callValue(fr *Frame, st *State, c *ssa.CallCommon, fval Value, ar
 		argsCopy := append([]Value(nil), args...)
 		ret = func(f *Frame, s *State, res Value) {
 			s.ghost["$call:"+short] = &callRecord{args: argsCopy, res: res, sig: sig, rt: rt}
+			x.tokenReturnEvent(s, key, res)
 			orig(f, s, res)
 		}
 	}
